@@ -431,7 +431,7 @@ def walk_ctx(nodes, path, side, ctxvar, steps, info):
             continue
         m = re.fullmatch(r"::SSL_CTX_set_verify_depth\(%s, %sverifyDepth\)" % (cv, cfg), t)
         if m:
-            steps.append((path, '(.other "SSL_CTX_set_verify_depth")'))
+            steps.append((path, ".setVerifyDepth"))
             continue
         if re.match(r"\(void\) ?::SSL_CTX_set_alpn_(select_cb|protos)\( ?%s," % cv, t):
             steps.append((path, '(.other "SSL_CTX_set_alpn")'))
